@@ -447,7 +447,7 @@ pub fn run(args: &Args, report: &mut Report) {
     report.rule = "tie: worlds with cyclic inheritance (super lists drawn from all classes, self included) and cyclic / self-referential aliases, check_type_compact on all reference pairs and on pairs with array/optional/table wrappers; oracle: programs assembled from annotated fragments (classes with fields, generic classes and functions, recursive aliases, enums, operators, overloads, casts, member chains, calls) with 0-6 mutations (inserted noise such as `x[---@alias Al A|B`, cuts, duplications, deletions) x 2 configurations, whole pipeline in a child process with a 2 MiB stack and a per-program time budget. Non-trivial: the program has at least one annotation and one mutation, or the world has a cycle; distinct by content".into();
 
     // ---- tie on cyclic worlds
-    let n_worlds = if args.thorough() { 3000 } else { 300 };
+    let n_worlds = if args.thorough() { 3000 } else { 120 };
     let mut requests = Vec::new();
     let mut pending: Vec<(Value, String)> = Vec::new();
     let mut seen = HashSet::new();
@@ -509,7 +509,7 @@ pub fn run(args: &Args, report: &mut Report) {
     }
 
     // ---- crash oracle
-    let n_prog = if args.thorough() { 60000 } else { 1500 };
+    let n_prog = if args.thorough() { 60000 } else { 600 };
     let budget = Duration::from_secs(10);
     let mut items: Vec<(String, usize)> = Vec::new();
     if let Some(p) = &args.replay {
